@@ -10,7 +10,7 @@ import registry  # noqa: E402
 
 TEXT = {
     "C01": "Round trip decode(encode(m)) = m proved in Lean for every graph, start vertex, table, fuel, message, check length and both modes (no hypothesis on the graph); totality of encode on well-formed graphs with the explicit fuel L*|V|+1 (pigeonhole on forced paths). Tie to /repo: differential correspondence of encode/decode/set_vt against the native driver compiled from the same definitions, plus a direct round-trip sweep.",
-    "C02": "Window safety of every walk on a graph induced by a filter mask (synchronisation lemma + arcs only lead to marked vertices) and whole-sequence validity for window-decidable LocalBioFilter configurations (C12 window-conjunction + monotonicity for short strands) proved in Lean; constructor sentence: partial theorem + proved counter-example = known finding K1.",
+    "C02": "Window safety of every walk on a graph induced by a filter mask (synchronisation lemma + arcs only lead to marked vertices) and whole-sequence validity for window-decidable LocalBioFilter configurations (C12 window-conjunction + monotonicity for short strands) proved in Lean; constructor sentence: partial theorem + proved counter-example = known finding K1. The GC thresholds are the ones the code's double-precision expressions produce (floatGcRule on Model/Float.lean, a rounding model PROVED to be IEEE-754 round-to-nearest-even in Props/FloatSpec.lean); their mutual consistency, which defect D8 violated, is a theorem for all doubles in [0,1] and windows up to 2^53 (C02_float_consistent); the whole write path filter -> graph -> strand is restated on the GENERATED code incl. the built-in filter (gen_E2E_biofilter_windows/whole).",
     "C03": "For every mask and threshold 1..4 (C03_holds): the result is the largest closed subset (for t = 1: closed1 = at least one retained successor and a branching vertex in reach), the accessor is the induced table, the vertex list is exactly the vertices with arcs, ValueError iff that subset is empty; all fuel-bounded loops of the model (trimming rounds, backward closure, predecessor cascade) provably terminate within their fuel; monotone in the mask; latter-map trimming gives the same graph for t >= 2 (C03_latter_map) and remove_useless is the greatest closed sub-map for ANY latter map (C03_remove_useless). Tie: correspondence of connect_coding_graph / remove_useless / latter_map_to_accessor + independent gfp oracle.",
     "C04": "Termination within L*|V|+1 steps, walk-ness and tightness of the strand on generated graphs, proved from C03's characterisation (GoodFrom) and the Nat-level encoder lemmas; implementation observed through a read-counting accessor proxy with the theorem's budget.",
     "C05": "The emitted strand meets the declarative specification IsEncoding (mixed-radix value with documented arc rank, minimality), the specification determines the strand uniquely, decoding any walk gives its value big-endian; fast mode: carried bits = message (+ one padding 0). Proved for all inputs.",
@@ -20,14 +20,14 @@ TEXT = {
     "C09": "Clean strands returned alone with zero detections on both return paths; candidate list strictly increasing; every candidate reproduces the supplied check — proved for every input.",
     "C10": "repair_dna returns a value for every table/start/ACGT strand of length >= k and every option: the scan needs at most |s|+1 steps (both branches advance), no look-back indexes outside its chunk, look-ups bounded by |s| + 18k(|s|+k). Implementation observed under a look-up budget.",
     "C11": "Mask = filter verdict on the i-th k-mer, ValueError iff none; valid graph = induced shift sub-graph with the arc in the column of the successor's last nucleotide, ValueError for the empty mask. The filter call convention is observed by the harness with documented-interface filters.",
-    "C12": "valid() equals the documented predicate (alphabet, run, motif/reverse complement, windowed GC, short-string rule), last-window = verdict of the final window, window conjunction for window-decidable configurations, reverse-complement invariance — proved on the integer-threshold model; float->threshold conversion recomputed by the harness with the code's expressions.",
+    "C12": "valid() equals the documented predicate (alphabet, run, motif/reverse complement, windowed GC, short-string rule), last-window = verdict of the final window, window conjunction for window-decidable configurations, reverse-complement invariance — proved on the integer-threshold model; the thresholds are DERIVED by the model from the caller's doubles with an exact model of binary64 rounding (Model/Float.lean) that is proved against the IEEE-754 specification (Props/FloatSpec.lean); dsw/biofilter.py is translated on every run and tied (tie_LocalBioFilter_*), C12 is restated on the generated code (gen_C12_*).",
     "C13": "Index <-> k-mer bijection, successor/predecessor lists as shift-append/prepend, predecessor iff successor, complete accessor, and the de Bruijn sub-table invariant for every constructor/converter — proved for every k and every vertex.",
     "C14": "Round trips accessor<->latter map and accessor<->matrix are the identity on every arc subset; content of map/matrix/vertex list; leaf queries agree and equal the d-step walk end points; illegal matrices rejected — proved for every k.",
     "C15": "add/mul/div/sub on canonical decimal strings return canonical strings with the exact value (carry/borrow chains of every length), special cases, canonical strings determined by value — proved by induction on the digit list.",
     "C16": "bits/DNA -> number -> bits/DNA identity at every length, string path = integer path, fixed-width rendering inverse and padding, fuel of the string loops never exhausted — proved.",
-    "C17": "Proved on the exact-rational model of the power iteration: estimates in (0,4] (capacity <= 2), 0 for an arc-less graph, exactly d on d-regular graphs in single-start mode, soundness of the Collatz-Wielandt certificate (integer and rational), and what the code's own stopping rule certifies (C17_stop_accuracy: relative error <= tol/delta of the walk growth rate). NOT a theorem: the 1e-4 accuracy of the FLOATING-POINT iteration; it is tested two ways - step-by-step agreement (1e-9) of the float iteration with the exact model, and the result against the certified enclosure.",
+    "C17": "Proved on the exact-rational model of the power iteration: estimates in (0,4] (capacity <= 2), 0 for an arc-less graph, exactly d on d-regular graphs in single-start mode, soundness of the Collatz-Wielandt certificate (integer and rational), and what the code's own stopping rule certifies (C17_stop_accuracy: relative error <= tol/delta of the walk growth rate). The same clauses are proved for the DOUBLE-PRECISION computation the code performs (Model/CapacityF.lean, operation by operation, compared with the NumPy run bit for bit on every iteration, also with the start vectors drawn by the modelled MT19937): C17F_le_four, C17F_arcless, C17F_regular, C17F_total, and C17F_stop_certificate / C17F_stop_accuracy (what the rounded stopping rule certifies: relative error <= (tol+2^-500)/delta + 2^-50 of the walk growth rate). NOT a theorem: that the rule fires within the iteration budget with delta large enough for 1e-4 (convergence RATE under the spectral-gap precondition) - tested against the certified Collatz-Wielandt enclosure; numpy.log2 and numpy.median are external.",
     "C18": "For ANY table digit->arc is a bijection onto the live arcs with the decoder's map as inverse (argsort is a permutation), with permutation rows the digit is the documented rank, table shape given a permutation-returning shuffle; decode's acceptance is table independent (C06). NumPy's MT19937 seeding and legacy shuffle are modelled in Lean (Model/Shuffle.lean): in the model the table is a pure function of (k, seed), every row is a permutation for ANY generator stream, seeds >= 2^32 are ValueError; the model's tables are compared entry by entry with NumPy's on every run. That the call touches nothing but NumPy's global generator is observed, not proved.",
-    "C19": "Scores have the accessor's shape and are positive only on arcs; every returning call removes exactly one existing arc of maximum score, changes nothing else, keeps accessor and latter map consistent; by induction over any call sequence.",
+    "C19": "Scores have the accessor's shape and are positive only on arcs; every returning call removes exactly one existing arc of maximum score, changes nothing else, keeps accessor and latter map consistent; by induction over any call sequence. remove_nasty_arc and calculate_intersection_score are translated on every run and tied (tie_remove_nasty_arc, tie_calculate_intersection_score); C19 is restated on the generated code (gen_C19_step, gen_C19_history).",
     "C20": "The Lean model is the stateless specification (every operation a pure function). Decided by translation validation of histories: random interleavings on shared argument objects, bit-for-bit argument snapshots, verbose on/off, results compared with isolated calls and with the model.",
 }
 TECH = "Lean 4 theorems about a hand-written model + differential correspondence (real Python vs native driver compiled from the model) + direct oracle sweep"
